@@ -230,7 +230,7 @@ pub const MISC_NAMES: [&str; 21] = [
     "from_str_variants",
 ];
 
-pub const N_FMT_VARIANTS: u8 = 10;
+pub const N_FMT_VARIANTS: u8 = 14;
 
 #[derive(Clone, PartialEq, Eq, Debug)]
 pub enum Outcome {
@@ -546,6 +546,10 @@ fn exec_fmt(
             7 => "{:+0w$.p$}", "{:+0w$}";
             8 => "{:*<w$.p$}", "{:*<w$}";
             9 => "{:_>w$.p$}", "{:_>w$}";
+            10 => "{:#w$.p$}", "{:#w$}";
+            11 => "{:+#w$.p$}", "{:+#w$}";
+            12 => "{:#0w$.p$}", "{:#0w$}";
+            13 => "{:^+#w$.p$}", "{:^+#w$}";
         )
     };
     info.writes = sink.n_writes;
